@@ -10,6 +10,7 @@ Definition I_TEXT := 1. Definition I_NEWLINE := 2. Definition I_ESCAPE := 3. Def
 Definition I_EMPH_STAR := 5. Definition I_EMPH_UNDER := 6. Definition I_LINK := 7. Definition I_LINKEND := 8.
 Definition I_IMAGE := 9. Definition I_AUTOLINK := 10. Definition I_ENTITY := 11. Definition I_STRIKE := 12.
 Definition I_HTMLINLINE := 13. Definition I_CUSTOM_LETTER := 14. Definition I_CUSTOM_PUNCT := 15.
+Definition I_CUSTOM_PAIR := 16.
 
 (* configuration seen by the inline rules *)
 Record icfg := ICfg {
@@ -648,6 +649,44 @@ Definition rule_link (st : istate) (silent : bool) (enable_nested : bool) (offse
       if i_pos st3 <=? pl_end p then ret (st3, Some (pl_end p - i_pos st3)) else panic Overflow
   end.
 
+(* generics/inline/code_pair.rs with TOKENIZE = true: the content between the markers is tokenized
+   into the new node, one nesting level deeper *)
+Definition rule_code_pair_tok (st : istate) (marker : N) (silent : bool) : res (istate * option N) :=
+  do rest <- irest st;
+  match rest with
+  | [] => panic UnwrapNone
+  | c :: _ =>
+    if negb (c =? marker) then ret (st, None) else
+    if match rev (trailing_text_get st) with x :: _ => x =? marker | [] => false end then ret (st, None) else
+    let opener_len := count_run marker rest in
+    let pos := i_pos st + opener_len in
+    let '(scanned, maxv) := get_bt st marker in
+    if scanned && (nth (N.to_nat opener_len) maxv 0 <=? i_pos st) then ret (st, None) else
+    do r <- code_scan (S (length rest)) st marker opener_len pos maxv;
+    match fst r with
+    | None => ret (set_bt st marker (true, snd r), None)
+    | Some (ms, me) =>
+      let st1 := set_bt st marker (scanned, snd r) in
+      if silent then ret (st1, Some (me - i_pos st)) else
+      do raw <- isl st pos ms;
+      let content := map (fun b => if b =? 10 then 32 else b) raw in
+      let strip := match content, rev content with
+                   | 32 :: _, 32 :: _ => 2 <? len content
+                   | _, _ => false
+                   end in
+      let pos' := if strip then pos + 1 else pos in
+      let ms' := if strip then ms - 1 else ms in
+      do m <- iget_map st (i_pos st) me;
+      let newn := mk (KCustomPair opener_len) m [] in
+      let inner := IState (i_src st1) (i_map st1) newn pos' ms' (i_cache st1) (i_link_level st1)
+                          (i_level st1 + 1) (i_bt st1) (i_refs st1) in
+      do inner' <- tokenize_rec inner;
+      let st2 := IState (i_src st1) (i_map st1) (push_child (i_node st1) (i_node inner')) (i_pos inner') (i_max st1)
+                        (i_cache inner') (i_link_level inner') (i_level st1) (i_bt inner') (i_refs st1) in
+      if i_pos st2 <=? me then ret (st2, Some (me - i_pos st2)) else panic Overflow
+    end
+  end.
+
 Definition run_rule (r : N) (st : istate) (silent : bool) : res (istate * option N) :=
   if r =? I_TEXT then rule_text cfg st silent
   else if r =? I_NEWLINE then rule_newline st silent
@@ -674,6 +713,7 @@ Definition run_rule (r : N) (st : istate) (silent : bool) : res (istate * option
   else if r =? I_HTMLINLINE then rule_html_inline st silent
   else if r =? I_CUSTOM_LETTER then rule_custom_inline st (bs "xx") 1 silent
   else if r =? I_CUSTOM_PUNCT then rule_custom_inline st (bs "%%") 2 silent
+  else if r =? I_CUSTOM_PAIR then rule_code_pair_tok st 37 silent
   else ret (st, None).
 
 Fixpoint try_rules (chain : list N) (st : istate) (silent : bool) (bump : bool) : res (istate * option N) :=
